@@ -1,10 +1,12 @@
 // Differential + oracle harness for C25 (Go-to-XGo style conversion `xgo fmt --smart` preserves behaviour).
 //
 // Generated Go main packages (several files each, as `xgo fmt --smart --mvgo dir` sees them) are
-//   (a) built with Go and run;
-//   (b) converted file by file with the real x/format.GopstyleSource (what `xgo fmt --smart`
-//       calls, see cmd/internal/gopfmt), compiled as one XGo package with the real compiler,
-//       built and run;
+//
+//	(a) built with Go and run;
+//	(b) converted file by file with the real x/format.GopstyleSource (what `xgo fmt --smart`
+//	    calls, see cmd/internal/gopfmt), compiled as one XGo package with the real compiler,
+//	    built and run;
+//
 // stdout per unit, exit status and panic must agree (property oracle).  A conversion that does
 // not parse/compile, or changes the output, is reported with the kind of the unit as key.
 // Differential ties with the Lean model: rewrite decisions + import removal on scope-tree units
